@@ -50,8 +50,18 @@ class Builder:
         self.tasks[tid] = t
         return t
 
+    def module(self, spec):
+        """a module object whose explicit namespace `ns` is the collection built from spec["ns"]"""
+        import types
+        mod = types.ModuleType(spec["module"])
+        mod.__doc__ = "COLL"
+        mod.ns = self.coll(spec["ns"])
+        return mod
+
     def coll(self, spec):
         from invoke import Collection
+        if "module" in spec:   # the root itself is a re-imported module
+            return Collection.from_module(self.module(spec), auto_dash_names=spec.get("ad"))
         args = [spec["name"]] if spec.get("name") is not None else []
         c = Collection(*args, auto_dash_names=spec.get("auto_dash", True))
         c.__doc__ = "COLL"
@@ -66,7 +76,10 @@ class Builder:
                     kw["default"] = it["default"]
                 c.add_task(self.task(it["task"]), **kw)
             else:
-                sub = self.coll(it["coll"])
+                if "module" in it["coll"] and it["coll"].get("ad") is None:
+                    sub = self.module(it["coll"])      # add_collection(module) -> from_module(module)
+                else:
+                    sub = self.coll(it["coll"])
                 kw = {}
                 if it.get("bind") is not None:
                     kw["name"] = it["bind"]
@@ -127,6 +140,10 @@ def item(it):
 
 
 def sub(spec, bind=None, default=False):
+    if "module" in spec:
+        ad = spec.get("ad")
+        return "(IMod %s %s %s %s %s)" % (ct.s(spec["module"]), ct.opt(ct.b(ad) if ad is not None else None),
+                                          sub(spec["ns"]), opt_s(bind), ct.b(default))
     return "(ISub %s %s %s %s %s %s)" % (
         opt_s(spec.get("name")), ct.b(spec.get("auto_dash", True)),
         ct.tree(gt.unjson(spec.get("config", {}))),
@@ -191,7 +208,7 @@ class Ids:
 
 
 def gen_coll(rng, depth, ids, name=None, clean=True, p_break=0.0, width=3, p_default=0.5,
-             p_subdefault=0.25, auto_dash=None, share=0.0, p_extra=0.25, p_rename=0.3):
+             p_subdefault=0.25, auto_dash=None, share=0.0, p_extra=0.25, p_rename=0.3, p_mod=0.0):
     """A random collection spec.  clean=True keeps every name inside one
     collection distinct (after normalisation); clean=False allows collisions."""
     ad = (rng.random() < 0.75) if auto_dash is None else auto_dash
@@ -261,13 +278,23 @@ def gen_coll(rng, depth, ids, name=None, clean=True, p_break=0.0, width=3, p_def
             if not clean and rng.random() < 0.07:
                 cname = None if bind is None else cname
             child = gen_coll(rng, depth - 1, ids, cname, clean, p_break, width, p_default,
-                             p_subdefault, None if rng.random() < 0.5 else ad, share, p_extra, p_rename)
+                             p_subdefault, None if rng.random() < 0.5 else ad, share, p_extra, p_rename, p_mod)
+            if rng.random() < p_mod and child["items"] and cname is not None:
+                child = wrap_module(rng, child)
             d = False
             if (not has_default or not clean and rng.random() < 0.1) and rng.random() < p_subdefault:
                 d = True
                 has_default = True
             spec["items"].append({"coll": child, "bind": bind, "default": d})
     return spec
+
+
+MOD_NAMES = ["tasks", "my_tasks", "mod-x", "pkg"]
+
+
+def wrap_module(rng, spec):
+    """the collection becomes the explicit `ns` of a module re-imported by from_module"""
+    return {"module": rng.choice(MOD_NAMES), "ad": rng.choice([None, None, True, False]), "ns": spec}
 
 
 def variants(s):
@@ -281,6 +308,11 @@ def vocabulary(spec):
     tw, cw = set(), set()
 
     def walk(sp):
+        if "module" in sp:
+            cw.add(sp["module"])
+            if sp["ns"].get("name"):
+                cw.add(sp["ns"]["name"])
+            return walk(sp["ns"])
         for it in sp.get("items", []):
             if "task" in it:
                 tw.add(it["task"]["name"])
@@ -314,6 +346,14 @@ def resolvable_names(d, prefix=""):
 
 def shrink_spec(spec):
     """smaller scripts: drop an item, drop config, hoist/shrink a sub-collection"""
+    if "module" in spec:
+        yield spec["ns"]                       # without the re-import
+        if spec.get("ad") is not None:
+            yield dict(spec, ad=None)
+        for sm in shrink_spec(spec["ns"]):
+            if sm.get("items"):
+                yield dict(spec, ns=sm)
+        return
     items = spec.get("items", [])
     for i in range(len(items)):
         yield dict(spec, items=items[:i] + items[i + 1:])
